@@ -327,6 +327,13 @@ impl ParseState<'_> {
         // 默认值 "" | 词项的索引上界（不含）
         let (punctuation, right_border) = punctuation.right_unwrap_or(right_border);
 
+        // 没有标点⇒不是语句：先前从后缀切割出的「真值」「时间戳」作废，其字符仍属于词项
+        // * 🎯避免如漢文`回到过去`这样的纯词项被切成`回到`+时间戳`过去`，而时间戳随后又被静默丢弃
+        let (truth, stamp, right_border) = match punctuation {
+            Some(..) => (truth, stamp, right_border),
+            None => (None, None, env.len()),
+        };
+
         // 前后缀切割完毕，最后解析出词项 //
         // 获得「词项」的「字符数组切片」
         let env_term = &env[begin_index..right_border];
